@@ -220,4 +220,17 @@ theorem cells_do_not_leak :
         "magic-numbers.numeric-literal".toList 4 = false := by
   decide +kernel
 
+/-- F04r (repaired): a comment of another tool with an `ignore[...]` of its own in front of the directive (mypy's
+    `# type: ignore[arg-type]`) no longer hides the directive's rule list; and such a comment alone is no directive -/
+theorem F04r_witness :
+    lineSameLineIgnores "    return x * 37  # type: ignore[arg-type]  # thailint: ignore[magic-numbers]".toList
+        "magic-numbers.numeric-literal".toList = true ∧
+    (hasLineMarker "    return x * 37  # type: ignore[arg-type]  # thailint: ignore[magic-numbers]".toList &&
+      sameLineRuleMatchOld "    return x * 37  # type: ignore[arg-type]  # thailint: ignore[magic-numbers]".toList
+        "magic-numbers.numeric-literal".toList) = false ∧
+    lineSameLineIgnores "    return x * 37  # type: ignore[arg-type]  # thailint: ignore[nesting]".toList
+        "magic-numbers.numeric-literal".toList = false ∧
+    lineSameLineIgnores "    return x * 37  # type: ignore[magic-numbers]".toList "magic-numbers.numeric-literal".toList = false := by
+  decide +kernel
+
 end ThaiLintModel.C04
